@@ -609,7 +609,7 @@ func (h *harness) statusSweep(assets []*lib.TLAsset) {
 				}
 			}
 		}
-		// findings stream: non-zero start time and start number
+		// non-zero start time and start number (refuted before 497da16)
 		for _, cfg := range []lib.TLCfg{{StartS: 30, Snr: -1, Tsbd: -1, Mode: "number"}, {Snr: 7, Tsbd: -1, Mode: "number"},
 			{StartS: 1000, Snr: 3, Tsbd: -1, Mode: "tlnr"}} {
 			for _, cycle := range []int64{8, 30} {
@@ -1319,15 +1319,16 @@ func run(c *lib.Ctx) error {
 		return err
 	}
 	h := &harness{c: c, ls: ls, rng: rand.New(rand.NewSource(c.Seed)), dist: map[string]bool{}, base: map[string]baseResp{}, repDef: map[string]string{}}
-	// Which calcStatusCode is under test: as it is, or with proposed_fixes/C14-statuscode-cycle-start.diff.
+	// Which calcStatusCode is under test: with the repair 497da16 of the cycle start (model variant true) or
+	// without it (a tree in which it is reverted; model variant false, the oracle then reports the defects).
 	// Segment 5 of testpic_2s with start_30 is the second segment of the cycle that starts at 8 s: the
-	// repaired code answers 404, the code as it is panics (finding c14-start-time-panic).
+	// repaired code answers 404, the code before the repair panics.
 	probe := ls.GetRaw("/livesim2/start_30/statuscode_[{cycle:8,rsq:1,code:404}]/testpic_2s/V300/5.m4s?nowMS=42037")
 	h.fx = probe.Panic == "" && probe.Status == 404
 	if h.fx {
-		c.Res.Notes = append(c.Res.Notes, "calcStatusCode under test has the cycle-start repair: the model variant fx = true (theorems C14_status_repaired, C14_status_number_repaired) is used")
+		c.Res.Notes = append(c.Res.Notes, "calcStatusCode under test has the cycle-start repair 497da16: model variant true (theorems C14_status_spec, C14_status_number, ...)")
 	} else {
-		c.Res.Notes = append(c.Res.Notes, "calcStatusCode under test is the unrepaired one: model variant fx = false")
+		c.Res.Notes = append(c.Res.Notes, "calcStatusCode under test does not have the cycle-start repair 497da16: model variant false (C14_unrepaired_* theorems); the oracle reports its defects")
 	}
 	if c.Replay != "" {
 		in, err := lib.LoadReplayInput[c14in](c.Replay)
